@@ -6,7 +6,8 @@ PID = "C05"
 PROPS = ["Props/C05.v"]
 GEN = ['Env.v']
 MODEL_IS_SPEC = False
-RULE = ("grammatical queries whose function calls are placed without regard to types (any registered or unknown function in test, comparison-operand and argument position; also well-typed expressions with exactly one injected fault: wrong arity or one argument of a type its parameter does not accept; "
+RULE = ("parenthesised-argument grid: every built-in and four test doubles x every parameter x query / call / comparison arguments, plain and in one or two pairs of parentheses (a parenthesised argument is a logical-expr: LogicalType parameters only); "
+        "grammatical queries whose function calls are placed without regard to types (any registered or unknown function in test, comparison-operand and argument position; also well-typed expressions with exactly one injected fault: wrong arity or one argument of a type its parameter does not accept; "
         "under '!', inside '&&'/'||', inside parentheses; wrong arity; every argument form) x registries = built-ins plus 0-3 random declarations over Value/Logical/Nodes; "
         "index/slice integers at lo-1, lo, hi, hi+1 for the default and a custom range; the Coq typing judgement + range predicate decide the expected outcome; a case fails if "
         "compile() accepts an ill-typed/out-of-range query, rejects a valid one, or raises anything but a JSONPathError; non-trivial = contains a call or a boundary integer")
@@ -15,6 +16,7 @@ TRUSTED_BASE = [
     "Spec/Types.v: wt_expr / ints_in_range as a reading of RFC 9535 2.4.3 and 2.1",
     "Model/Parse.v (check_args, non_comparable, value_function, in_range) tied to the code by correspondence",
     "renderer self-checked by the proved grammar recognizer; extraction and the OCaml driver",
+    "parentheses are not represented in the syntax tree Spec/Types.v judges: for the parenthesised-argument grid the check applies the RFC rule 'a parenthesised argument is a logical-expr (LogicalType parameters only)' on top of the Coq judgement",
 ]
 ASSUMPTIONS = ["registered functions are FilterFunction instances with declared arg_types/return_type"]
 TECHNIQUE = "Coq typing judgement (RFC 2.4.3) and range predicate evaluated on the generating AST, differential against compile() over random registries; parser-model correspondence; Coq theorem relating the model's compile-time checks to the judgement"
@@ -24,10 +26,54 @@ LEVEL_TEXT = ("Theorem C05_checks (Props/C05.v): the parser model's compile-time
 LEVEL_NOTE = "Trusted: Coq kernel; Spec/Types.v as a reading of the RFC; correspondence; extraction and driver."
 
 
+def paren_arg_cases(ctx):
+    """an argument written in parentheses is a logical-expr (RFC 9535 2.4.3: admitted for LogicalType parameters only), whatever it contains;
+    the syntax tree has no node for the parentheses, so the expectation combines the Coq judgement on the tree with that rule"""
+    reg = list(gen.BUILTINS) + [("fl", [2], 2, [6], None), ("fn", [3], 3, [6], None), ("fv", [1], 1, [6], None), ("fvl", [1, 2], 2, [6], None)]
+    reg4 = [r[:4] for r in reg]
+    env = harness.make_env(reg)
+    lo, hi = -harness.LIM, harness.LIM
+    A = [(("rel", [("child", [("name", "a")])]), "@.a"), (("rel", [("child", [("wild",)])]), "@.*"), (("abs", [("child", [("name", "b")])]), "$.b"),
+         (("call", "count", [("rel", [("child", [("wild",)])])]), "count(@.*)"), (("call", "fn", [("rel", [("child", [("wild",)])])]), "fn(@.*)"),
+         (("call", "fl", [("rel", [("child", [("name", "a")])])]), "fl(@.a)"),
+         (("cmp", "==", ("rel", [("child", [("name", "a")])]), ("lit", 1)), "@.a == 1")]
+    lit1 = (("lit", 1), "1")
+    for fname, ptypes, ret in (("count", [3], 1), ("length", [1], 1), ("value", [3], 1), ("match", [1, 1], 2), ("search", [1, 1], 2), ("fl", [2], 2), ("fn", [3], 3), ("fv", [1], 1), ("fvl", [1, 2], 2)):
+        for pos, ptype in enumerate(ptypes):
+            for (aast, atext) in A:
+                for wrapped in ("(%s)", "( %s )", "((%s))", "%s"):
+                    args_ast, args_txt = [], []
+                    for j, pt in enumerate(ptypes):
+                        if j == pos: args_ast.append(aast); args_txt.append(wrapped % atext)
+                        else:
+                            other = lit1 if pt == 1 else A[0]
+                            args_ast.append(other[0]); args_txt.append(other[1])
+                    call = ("call", fname, args_ast)
+                    ctext = "%s(%s)" % (fname, ", ".join(args_txt))
+                    if ret == 1: e, etext = ("cmp", "==", call, ("lit", 1)), ctext + " == 1"
+                    else: e, etext = call, ctext
+                    q = [("child", [("filter", e)])]
+                    text = "$[?%s]" % etext
+                    out, c = harness.impl_compile(env, text)
+                    paren = wrapped != "%s"
+
+                    def chk(impl_out, spec, paren=paren, ptype=ptype):
+                        if spec[0] != 1: raise AssertionError("generator self-check: rendered query is not in the grammar")
+                        valid = spec[1] == 1 and spec[2] == 1 and (not paren or ptype == 2)
+                        if valid and impl_out[0] != 0: return "well-typed query rejected"
+                        if not valid and impl_out[0] == 0: return "ill-typed query accepted (a parenthesised argument is a logical expression)" if paren else "ill-typed query accepted"
+                        if impl_out[0] == 2: return "a non-JSONPath exception escaped"
+                        return None
+                    yield Case({"text": text, "range": [lo, hi], "registry": [(r[0], r[1], r[2]) for r in reg[5:]]},
+                               harness.compile_req(reg, text, lo, hi), out,
+                               [109, lo, hi] + gen.enc_registry(reg4) + gen.enc_segs(q) + wire.enc_str(text), None, True, "parenthesised-argument", True, chk)
+
+
 def cases(ctx, budget):
     rng = ctx.rng
     n = (4000 if ctx.quick else 150000) * budget
     envs = {}
+    for c in paren_arg_cases(ctx): yield c
     for i in range(n):
         reg = harness.rand_registry(rng)
         custom = rng.random() < 0.3
